@@ -422,6 +422,11 @@ Definition nonredundant (W : list wit) (pg : pgeom) : bool :=
   && forallb (fun p => negb (areal_p pg p) && negb (lineal_p pg p)
                        && Nat.eqb (length (filter (pt_eqb p) (pg_points pg))) 1) (pg_points pg).
 
+(* every ring of every polygon is a closed vertex list (first = last): the hypothesis under which the
+   witnesses decide every point of the plane (Proofs/Planar_slab*.v); true of every valid polygon *)
+Definition rings_closed_b (g : geom) : bool :=
+  forallb (fun y => forallb (fun r => pts_closed (line_pts r)) (poly_rings y)) (g_polys g).
+
 (* ---- the judgement ------------------------------------------------------------------------------ *)
 Record verdict := MkVerdict {
   v_agree : bool;            (* membership agrees at every witness *)
